@@ -14,6 +14,63 @@ K = 4
 ASSUMPTIONS = ["C15: asset classes are 4 concrete, pairwise distinct keys (names/policies are opaque byte strings; empty vs non-empty distinguished in the constructor harnesses); amounts are symbolic i128; overflow of an individual i128 addition is outside the property and is checked to be the *only* reason the real code panics"]
 
 
+CLS_JSON = {"naked": "naked", "named_n1": [N1], "def_p1n1": [P1, N1], "def_p2n1": [P2, N1], "def_p1n2": [P1, N2]}
+
+
+def _concrete(vals, name, k=K):
+    """[[class json, amount string]] of the assets value `name` under the model valuation"""
+    out = []
+    for cname, _ in universe(k):
+        if vals.get("%s.%s.present" % (name, cname)):
+            out.append([CLS_JSON[cname], str(vals.get("%s.%s.amount" % (name, cname), 0))])
+    return out
+
+
+def _native_amounts(res):
+    """native assets_json -> {display name: int}"""
+    return {k: int(v) for k, v in res} if isinstance(res, list) else None
+
+
+DISPLAY = {"naked": "naked", "named_n1": bytes(N1).hex(), "def_p1n1": bytes(P1).hex() + "." + bytes(N1).hex(), "def_p2n1": bytes(P2).hex() + "." + bytes(N1).hex(), "def_p1n2": bytes(P1).hex() + "." + bytes(N2).hex()}
+
+
+def _amt(vals, name, cname):
+    return int(vals.get("%s.%s.amount" % (name, cname), 0)) if vals.get("%s.%s.present" % (name, cname)) else 0
+
+
+def replay_binop(op):
+    """re-evaluates the pointwise specification on the *native* result for the model's inputs"""
+    def rp(vals):
+        import native
+        a, b = _concrete(vals, "a"), _concrete(vals, "b")
+        # the native side builds values with `+`, which prunes zero entries: replay only canonical inputs
+        res = native.run([dict(cmd="assets", op=op, a=a, b=b)])[0]
+        if isinstance(res, dict) and "panic" in res:
+            return True
+        got = _native_amounts(res)
+        for cname, _ in universe(K):
+            want = _amt(vals, "a", cname) + (_amt(vals, "b", cname) if op == "add" else -_amt(vals, "b", cname))
+            if -(1 << 127) <= want < (1 << 127) and got.get(DISPLAY[cname], 0) != want:
+                return True
+        return False if all(int(x[1]) != 0 for x in a + b) else None
+    return rp
+
+
+def replay_pred(op, spec_py):
+    def rp(vals):
+        import native
+        a, b = _concrete(vals, "a"), _concrete(vals, "b")
+        res = native.run([dict(cmd="assets", op=op, a=a, b=b)])[0]
+        if isinstance(res, dict):
+            return True
+        A = {c: _amt(vals, "a", c) for c, _ in universe(K)}
+        B = {c: _amt(vals, "b", c) for c, _ in universe(K)}
+        if res != spec_py(A, B):
+            return True
+        return False if all(int(x[1]) != 0 for x in a + b) else None
+    return rp
+
+
 def _find(eng, trait, method):
     return eng.find(trait=trait, self_ty="CanonicalAssets", method=method)
 
@@ -37,7 +94,7 @@ def _binop(ctx, trait, method, spec_op, ovf_free):
     R, extra = amounts(ctx, r, K)
     ctx.require(len(extra) == 0, "%s introduces no foreign class" % method)
     for c in A:
-        ctx.require(z3.Implies(ovf_free(A[c], B[c]), R[c] == spec_op(A[c], B[c])), "%s is pointwise on %s" % (method, c))
+        ctx.require(z3.Implies(ovf_free(A[c], B[c]), R[c] == spec_op(A[c], B[c])), "%s is pointwise on %s" % (method, c), replay=replay_binop(method))
     # canonical form: no entry with amount zero is left behind
     for c, es in entries_by_class(ctx, r, K).items():
         ctx.require(len(es) <= 1, "%s keeps one entry per class" % method)
@@ -72,6 +129,16 @@ def h_neg(ctx, tier, seed):
         ctx.require(z3.Implies(A[c] != z3.BitVecVal(INT128_MIN, 128), R[c] == -A[c]), "neg is pointwise on %s" % c)
 
 
+PY_SPECS = {
+    "contains_total": lambda A, B: all(A[c] >= B[c] for c in A),
+    "contains_some": lambda A, B: all(B[c] == 0 for c in A) or any(B[c] != 0 and A[c] > 0 for c in A),
+    "is_empty": lambda A, B: all(A[c] == 0 for c in A),
+    "is_empty_or_negative": lambda A, B: all(A[c] <= 0 for c in A),
+    "is_only_naked": lambda A, B: all(A[c] == 0 for c in A if c != "naked"),
+    "eq": lambda A, B: all(A[c] == B[c] for c in A),
+}
+
+
 def _pred(ctx, method, spec, nargs=2, nonneg=False, canonical=False):
     eng = ctx.eng
     a = sym_assets(ctx, "a", K, nonneg=nonneg, canonical=canonical)
@@ -89,10 +156,11 @@ def _pred(ctx, method, spec, nargs=2, nonneg=False, canonical=False):
         ctx.violation("%s panicked: %s" % (method, p.kind), site=p.site)
         return
     want = spec(A, B)
+    rp = replay_pred(method, PY_SPECS[method]) if method in PY_SPECS else None
     if isinstance(r, bool):
-        ctx.require(want if r else z3.Not(want), "%s agrees with its specification (result %s)" % (method, r))
+        ctx.require(want if r else z3.Not(want), "%s agrees with its specification (result %s)" % (method, r), replay=rp)
     else:
-        ctx.require(r == want, "%s agrees with its specification" % method)
+        ctx.require(r == want, "%s agrees with its specification" % method, replay=rp)
 
 
 def h_contains_total(ctx, tier, seed):
@@ -127,10 +195,11 @@ def h_eq(ctx, tier, seed):
     f = eng.find(trait="PartialEq", self_ty="CanonicalAssets", method="eq")
     r = eng.call_fn(f, [ref_to_value(a), ref_to_value(b)])
     want = z3.And(*[A[c] == B[c] for c in A])
+    rp = replay_pred("eq", PY_SPECS["eq"])
     if isinstance(r, bool):
-        ctx.require(want if r else z3.Not(want), "equality is semantic (real result %s)" % r, shape="eq structural, not semantic")
+        ctx.require(want if r else z3.Not(want), "equality is semantic (real result %s)" % r, shape="eq structural, not semantic", replay=rp)
     else:
-        ctx.require(r == want, "equality is semantic", shape="eq structural, not semantic")
+        ctx.require(r == want, "equality is semantic", shape="eq structural, not semantic", replay=rp)
 
 
 def _ctor(ctx, name, args, expect_class):
